@@ -439,7 +439,8 @@ INFO = {
                          "mode": "gregorian"},
                "thorough": {"t": "also day 28/30, day-of-year 366, W52-7, W53-1", "mode": "all 4", "p": "seconds 0-4, 28-32, 55-59; week dates with year residues 0, 104, 203, 399"}},
     "outside": ["truncated year forms (-YY, -z), month-only forms", "fractional seconds", "p seconds outside the stated values in the quick tier",
-                "t with minute-offset zones other than +05:30 / -03:30"],
+                "t with minute-offset zones other than +05:30 / -03:30",
+                "termination for designators that no date of the active calendar carries: only the six concrete cases of job_termination (run under a 30 s limit; a concrete supplement, not a solver verdict)"],
     "assumptions": ["get_days_in_year_range runs as its closed form (C03)"],
 }
 REQUIRED_SCENARIOS = {"all": ["termination supplement", "t zone known", "t zone unknown", "order p+t", "order t+p", "p already matches",
